@@ -59,16 +59,7 @@ FirstTok(p, t, lst, cd) ==
 NameOf(t) == LowerSeq(SubSeq(input, t.nm[1] + 1, t.nm[2]))
 AttrsOf(t) == [i \in 1..Len(t.attrs) |-> <<LowerSeq(SubSeq(input, t.attrs[i][1] + 1, t.attrs[i][2])), SubSeq(input, t.attrs[i][3] + 1, t.attrs[i][4])>>]
 
-\* the tag-name hash cannot represent this name (more than 12 characters or a character outside a-z, 1-6)
-Hashable(n) == Len(n) <= 12 /\ \A i \in 1..Len(n) : (n[i] >= 97 /\ n[i] <= 122) \/ (n[i] >= 49 /\ n[i] <= 54)
-\* the simulator cannot answer from the name alone
-NeedsLexeme(sim, n, isEnd) ==
-  IF isEnd THEN Cur(sim) = "html" /\ Len(sim.ns) >= 2 /\ sim.ns[Len(sim.ns) - 1] = "mathml" /\ ~Hashable(n)
-  ELSE /\ n # n_svg /\ n # n_math /\ Cur(sim) # "html" /\ n \notin ForeignExit
-       /\ \/ (Cur(sim) = "svg" /\ n \in SvgHtmlIP) \/ (Cur(sim) = "mathml" /\ n \in MathTextIP)
-          \/ n = n_font
-          \/ (~Hashable(n) /\ Cur(sim) = "mathml")
-
+\* Hashable, NeedsLexeme: see TreeSim (shared with TraceLat)
 \* capture policy: does the controller want lexemes after this tag / for this tag?
 PolName == policy[2]
 PolKind == policy[1]
